@@ -2976,12 +2976,12 @@ def are_co_aligned(*exprs):
             continue
         seen.add(e._name)
 
-        if isinstance(e, IO):
-            ancestors.append(e)
-        elif e.ndim == 0:
+        if e.ndim == 0:
             # Scalars are valid ancestors that are always broadcastable,
-            # so don't walk through them
+            # so don't walk through them (a persisted scalar is an IO node)
             continue
+        elif isinstance(e, IO):
+            ancestors.append(e)
         elif isinstance(e, (Blockwise, CumulativeAggregations, Reduction)):
             # TODO: Capture this in inheritance logic
             dependencies = e.dependencies()
